@@ -11,7 +11,7 @@ def run(tier: str, seed: int) -> Report:
     rep.rule = (
         "cases = (helper, parameters, input table): rank_to_average -- ALL tables with <= 4 rows over 2 partitions x 3 order values (so ties and single-row "
         "groups occur; at quick 1/4 of the 4-row tables, rotated by the seed), with and without partition_by, plus tables with two order columns; "
-        "last_observed_carried_forward -- tables with <= 4 rows, 2 partitions, values None / 1.0 / 2.0, distinct order keys in ascending, descending and a "
+        "last_observed_carried_forward -- tables with <= 4 rows, 2 partitions, values None / NaN (missing) / 1.0 / 2.0 / +inf / -inf (values: never filled), distinct order keys in ascending, descending and a "
         "shuffled physical order (4-row tables sharded), with and without partition_by; replicate_rows_query -- max_count in {1, 2, 3, 4, 5, 8}, every tuple "
         "of counts 1..max_count for <= 3 rows (incl. the empty table), joined with the helper's own count table; def_multi_column_map -- tables with <= 3 rows, "
         "two mapped columns over {'a', 'b', unmapped 'z', null}, three mapping tables (full, partial, one column only), coalesce_value None / 0.0 / -1.0, "
@@ -22,6 +22,8 @@ def run(tier: str, seed: int) -> Report:
     rep.assumptions = [
         "order keys and partition keys are non-null (the documentation does not say where nulls sort); order keys of last_observed_carried_forward are distinct",
         "replicate_rows_query is used with counts 1..max_count as its scope states",
+        "every helper is called with its DEFAULT optional arguments (no partition_by / selection_predicate / coalesce_value / cols_to_map_back unless the case is about them)",
+        "None and NaN are both 'missing' (a Pandas float column and SQLite cannot tell them apart); +inf / -inf are ordinary values",
         "the references are the functions ref_* in cbc/c21.py",
     ]
     rep.explanation = "exploration: run-time contract on the pipelines built by data_algebra.solutions over an enumerated scope of inputs"
